@@ -1,14 +1,18 @@
-(* Model of plugin/input/k8s/multiline_action.go (MultilineAction.Do, resetLogBuf, isLineEnd), byte
-   level on the ESCAPED log fragment (what insane-json's AppendEscapedString yields for the `log`
-   node: a quoted JSON string).  The model follows the REPAIRED code (fixes/C15-k8s-*.patch): the
-   line-end test is the function isLineEnd (length guard + backslash parity).  Meta data lookup,
-   label fields and the Fatalf checks on the k8s_* fields are not modelled (the harness always
-   supplies them).  Index / slice expressions are in GoSem.res.  No proofs here.               *)
+(* Model of plugin/input/k8s/multiline_action.go (MultilineAction.Do, resetLogBuf, isLineEnd,
+   escapedCutKeep), byte level on the ESCAPED log fragment (what insane-json's AppendEscapedString
+   yields for the `log` node: a quoted JSON string).  The model follows the REPAIRED code
+   (fixes/C15-k8s-*.patch, fixes/C13-k8s-cut-inside-escape.patch): the line-end test is the function
+   isLineEnd (length guard + backslash parity); the cut at max_event_size (cut_off_event_by_limit)
+   keeps  fragment[:escapedCutKeep(fragment, len(fragment)-offset)]  of the fragment body, i.e. it
+   never cuts inside an escape sequence (\x, \uXXXX) and never keeps more than the byte limit.
+   Meta data lookup, label fields and the Fatalf checks on the k8s_* fields are not modelled (the
+   harness always supplies them).  Index / slice expressions are in GoSem.res.  No proofs here.   *)
 From Verif Require Import Base.Sx Base.GoSem Model.Join.
 
 Definition QUOTE : byte := 34%N.
 Definition BSLASH : byte := 92%N.
 Definition CH_n : byte := 110%N.
+Definition CH_u : byte := 117%N.
 Definition NLESC : bytes := [BSLASH; CH_n].            (* const newLine = `\n` *)
 Definition lookahead : Z := 131072.                   (* predictionLookahead = 128 * 1024 *)
 
@@ -52,6 +56,36 @@ Definition is_line_end (frag : bytes) : res bool :=
     if negb (N.eqb c CH_n) then Ok false
     else s <- count_slashes (Z.to_nat last) frag (last - 1) 0 ;; Ok (Z.odd s).
 
+(* escapedCutKeep(s, limit), the loop.  [rest] is the view s[i:] of the string, so s[i] is its head
+   and the guard  i+1 < len(s)  is "the tail is not empty";  i += n  drops n bytes of the view.
+       for i < limit { if s[i] != '\\' { i++; continue }
+                       n := 2; if i+1 < len(s) && s[i+1] == 'u' { n = 6 }
+                       if i+n > limit { return i }; i += n }
+       return limit
+   Out of fuel = Err 1 (excluded: Proofs.K8sMultiline.cut_loop_ok, fuel limit+1 always suffices). *)
+Fixpoint cut_loop (fuel : nat) (rest : bytes) (i limit : Z) : res Z :=
+  match fuel with
+  | O => Err 1
+  | S f =>
+      if i <? limit then
+        match rest with
+        | [] => Panic 2                                            (* s[i], index out of range *)
+        | ch :: r =>
+            if negb (N.eqb ch BSLASH) then cut_loop f r (i + 1) limit
+            else
+              let n := match r with e :: _ => if N.eqb e CH_u then 6 else 2 | [] => 2 end in
+              if i + n >? limit then Ok i
+              else cut_loop f (skipn (Z.to_nat n) rest) (i + n) limit
+        end
+      else Ok limit
+  end.
+
+(* if limit >= len(s) { return len(s) }; if limit < 0 { return 0 }; the loop from i = 0 *)
+Definition escaped_cut_keep (s : bytes) (limit : Z) : res Z :=
+  if limit >=? len s then Ok (len s)
+  else if limit <? 0 then Ok 0
+  else cut_loop (S (Z.to_nat limit)) s 0 limit.
+
 Definition k_do (c : kcfg) (st : kstate) (x : kin) : res (kstate * kstep) :=
   match x with
   | KTimeout => st' <- k_reset st ;; Ok (st', (ADiscard, 0, None, false))
@@ -65,14 +99,17 @@ Definition k_do (c : kcfg) (st : kstate) (x : kin) : res (kstate * kstep) :=
         is_end <- is_line_end frag ;;
         if negb is_end && negb should_split then
           let after := len (ebuf st) + L in
-          if (kmax c =? 0) || (after <? kmax c) then
+          (* once a chunk did not fit, the rest of the line is skipped even if a later chunk would fit *)
+          if (kmax c =? 0) || (negb (skipNext st) && (after <? kmax c)) then
             b <- slice frag 1 (L - 1) ;;
             Ok ({| ebuf := ebuf st ++ b; esize := esize'; skipNext := skipNext st; cutOff := cutOff st |},
                 (ACollapse, 0, None, false))
           else if negb (skipNext st) then
             if kcut c then
               let offset := after - kmax c in
-              b <- slice frag 1 (L - 1 - offset) ;;
+              fragment <- slice frag 1 (L - 1) ;;
+              keep <- escaped_cut_keep fragment (len fragment - offset) ;;
+              b <- slice_to fragment keep ;;
               Ok ({| ebuf := ebuf st ++ b; esize := esize'; skipNext := true; cutOff := true |},
                   (ACollapse, 1, None, false))
             else
@@ -88,7 +125,7 @@ Definition k_do (c : kcfg) (st : kstate) (x : kin) : res (kstate * kstep) :=
           let st1 := {| ebuf := ebuf st; esize := esize'; skipNext := false; cutOff := cutOff st |} in
           if skipNext st && negb (cutOff st) then
             st' <- k_reset st1 ;; Ok (st', (ADiscard, 0, None, false))
-          else if len (ebuf st) >? 1 then
+          else if (len (ebuf st) >? 1) || cutOff st then
             if negb (cutOff st) then
               b <- slice frag 1 (L - 1) ;;
               st' <- k_reset st1 ;;
@@ -145,6 +182,43 @@ Fixpoint first_unfit (max pre : Z) (fs : list bytes) : option (list bytes * byte
 
 Definition bodies (fs : list bytes) : bytes := concat (map body fs).
 
+(* the body of a VALID JSON string literal: a sequence of tokens, each an ordinary byte (not a
+   backslash, not a quote, not a control character), a two-byte escape backslash + one of quote, backslash, slash, b f n r t,
+   or backslash u + four hexadecimal digits; nothing left dangling *)
+Definition is_hex (h : byte) : bool :=
+  ((48 <=? h) && (h <=? 57) || (65 <=? h) && (h <=? 70) || (97 <=? h) && (h <=? 102))%N.
+Definition is_simple_esc (e : byte) : bool :=
+  existsb (N.eqb e) [34; 92; 47; 98; 102; 110; 114; 116]%N.
+Definition plain_ok (ch : byte) : bool := negb (N.eqb ch QUOTE) && (32 <=? ch)%N.
+Fixpoint esc_wf (s : bytes) : bool :=
+  match s with
+  | [] => true
+  | ch :: r =>
+      if N.eqb ch BSLASH then
+        match r with
+        | [] => false
+        | e :: r1 =>
+            if N.eqb e CH_u then
+              match r1 with
+              | h1 :: h2 :: h3 :: h4 :: r2 => is_hex h1 && is_hex h2 && is_hex h3 && is_hex h4 && esc_wf r2
+              | _ => false
+              end
+            else is_simple_esc e && esc_wf r1
+        end
+      else plain_ok ch && esc_wf r
+  end.
+
+(* how many bytes of the body [s] the cut keeps for the byte limit [limit] (escaped_cut_keep is
+   total: Proofs.K8sMultiline.k8s_cut_keep_ok) *)
+Definition cut_keep (s : bytes) (limit : Z) : nat :=
+  match escaped_cut_keep s limit with Ok k => Z.to_nat k | _ => O end.
+
+(* what a cut event carries for the fitting chunks p and the first chunk u that does not fit: the
+   bodies of p and the prefix of u's body chosen by the cut for the limit
+   max_event_size - len(buffer) - 2  =  max_event_size - 3 - len(bodies p) *)
+Definition cut_body (max : Z) (p : list bytes) (u : bytes) : bytes :=
+  bodies p ++ firstn (cut_keep (body u) (max - 3 - len (bodies p))) (body u).
+
 (* the result for the terminating chunk g of a line whose earlier chunks are fs *)
 Definition final_step (c : kcfg) (fs : list bytes) (g : bytes) : kstep :=
   match first_unfit (kmax c) 1 fs with
@@ -156,8 +230,7 @@ Definition final_step (c : kcfg) (fs : list bytes) (g : bytes) : kstep :=
   | Some (p, u) =>
       if kcut c then
         (APass, 0,
-         Some (QUOTE :: firstn (Z.to_nat (kmax c - 3)) (bodies (p ++ [u]))
-                 ++ (if ends_nl g then NLESC else []) ++ [QUOTE]),
+         Some (QUOTE :: cut_body (kmax c) p u ++ (if ends_nl g then NLESC else []) ++ [QUOTE]),
          kfield c)
       else (ADiscard, 0, None, false)
   end.
@@ -184,7 +257,11 @@ Definition no_timeout (xs : list kin) : bool :=
   forallb (fun x => match x with KTimeout => false | _ => true end) xs.
 Definition frag_ok (x : kin) : bool :=
   match x with KChunk f _ => 2 <=? len f | KTimeout => true end.
-Definition kmax_ok (c : kcfg) : bool := (kmax c =? 0) || (4 <=? kmax c).
+(* every fragment body is a valid escaped JSON string; the log field of a step is one *)
+Definition frag_wf (x : kin) : bool :=
+  match x with KChunk f _ => esc_wf (body f) | KTimeout => true end.
+Definition step_wf (o : kstep) : bool :=
+  match snd (fst o) with Some l => esc_wf (body l) | None => true end.
 
 (* bytes in / bytes out (conservation, for max_event_size = 0) *)
 Definition k_in_bytes (xs : list kin) : bytes :=
@@ -243,12 +320,13 @@ Definition kstep_of_sx (s : sx) : option kstep :=
   | _ => None
   end.
 
-(* the property's predicate: admissible configuration and fragments => no panic; on time-out free
-   sequences of a plugin that is not only_node, moreover every step is what k_spec says *)
+(* the property's predicate: admissible fragments => no panic; on time-out free sequences of a plugin
+   that is not only_node, moreover every step is what k_spec says (in particular a cut event carries
+   exactly  bodies p ++ the whole tokens of u that fit: a prefix of the line, Proofs k8s_cut_event) *)
 Definition c15_k8s_pred (case obs : sx) : bool :=
   match kcase_of_sx case with
   | Some (c, xs) =>
-      if kmax_ok c && forallb frag_ok xs then
+      if forallb frag_ok xs then
         match obs with
         | SL [SL steps; SL late; SZ 0] =>
             Nat.eqb (length steps) (length xs) &&
@@ -262,11 +340,29 @@ Definition c15_k8s_pred (case obs : sx) : bool :=
   | None => false
   end.
 
+(* ... and, time-outs or not, only_node or not: when every input fragment is a valid escaped JSON
+   string, so is the log field of every passed event, at once and when re-read at the end
+   (Proofs k8s_cut_event_wf: joined, cut and untouched events alike) *)
+Definition c15_k8s_wf_pred (case obs : sx) : bool :=
+  match kcase_of_sx case with
+  | Some (c, xs) =>
+      if forallb frag_ok xs && forallb frag_wf xs then
+        match obs with
+        | SL [SL steps; SL late; _] =>
+            forallb (fun s => match kstep_of_sx s with Some o => step_wf o | None => false end) steps &&
+            forallb (fun s => match s with SB l => esc_wf (body l) | _ => false end) late
+        | _ => false
+        end
+      else true
+  | None => false
+  end.
+
 Definition c15_k8s_run (case obs : sx) : verdict :=
   match c15_k8s_model case with
   | None => BadCase
   | Some m =>
-      if c15_k8s_pred case obs then (if sx_eqb m obs then Agree else Differ m) else Violates m
+      if c15_k8s_pred case obs && c15_k8s_wf_pred case obs
+      then (if sx_eqb m obs then Agree else Differ m) else Violates m
   end.
 
 (* the flush-on-time-out clause of the property, as byte conservation: with max_event_size = 0 and a
@@ -285,6 +381,6 @@ Definition c15_k8s_flush_run (case obs : sx) : verdict :=
   match c15_k8s_model case with
   | None => BadCase
   | Some m =>
-      if c15_k8s_flush_pred case obs && c15_k8s_pred case obs
+      if c15_k8s_flush_pred case obs && c15_k8s_pred case obs && c15_k8s_wf_pred case obs
       then (if sx_eqb m obs then Agree else Differ m) else Violates m
   end.
